@@ -46,8 +46,10 @@ def real_view(sub):
 def _work(chunk):
     drv = common.Driver()
     lines, meta = [], []
+    stale = []
     for tag, succ in chunk:
         scfg = export.mk_scfg(succ)
+        held = None
         stages = [("input", None)] + [(s, op) for s, op in (("closed", scfg.join_returns), ("loop", scfg.restructure_loop),
                                                               ("branch", scfg.restructure_branch))]
         for stage, op in stages:
@@ -59,8 +61,25 @@ def _work(chunk):
             top, line = export.export(scfg)
             lines.append(f"H {top} {line}")
             meta.append(None)
+            # views created before this stage's edit keep working on the edited graph: a view
+            # object that answers from state captured earlier would enumerate the old graph
+            if held is None:
+                held = scfg.concealed_region_view
+            else:
+                try:
+                    a, b = list(held), list(scfg.concealed_region_view)
+                except Exception as e:  # noqa: BLE001
+                    a, b = ["<raised>" + type(e).__name__], []
+                if a != b:
+                    stale.append((succ, stage, top, "view", "ok " + cj(a), "view object created before the edit enumerates " + cj(a) + " instead of " + cj(b)))
             for cont, sub in subgraphs(scfg, top):
                 ri, rv = real_iter(sub), real_view(sub)
+                # asking again, and asking a second view object, gives the same enumeration
+                ri2, rv2 = real_iter(sub), real_view(sub)
+                if ri2 != ri:
+                    ri = f"abort second-iteration-differs"
+                if rv2 != rv:
+                    rv = f"abort second-view-differs"
                 for kind, real in (("iter", ri), ("view", rv)):
                     lines.append(f"IT {kind} {cont}")
                     meta.append((succ, stage, cont, kind, real, "model"))
@@ -83,6 +102,7 @@ def _work(chunk):
                 fails.append((succ, stage, cont, kind, real, "aborted"))
         elif r != "1":
             fails.append((succ, stage, cont, kind, real, "spec"))
+    fails += stale
     return mism, fails, stats
 
 
